@@ -108,6 +108,10 @@ def gen_case(rng):
         [n for n in range(max(14, G - 6), G + 7)] +
         [rng.randint(G + 7, G + 300), 1400]))
     return dict(G=G, dynamic=dynamic, acc=acc, lens=lens,
+                # the size is configured on the instance (a subclass
+                # __init__, an application option) and differs from the
+                # class's default
+                instance_size=(not dynamic and rng.random() < 0.25),
                 form=rng.choice(["gt", "gt", "ge", "lt", "le"]),
                 pktseed=rng.getrandbits(32))
 
@@ -222,6 +226,12 @@ def build(case):
         def program(self):
             body(self, self)
     ns["program"] = program
+    if case.get("instance_size") and not case["dynamic"]:
+        ns["minimumPacketSize"] = G + 30
+        cls = type("VfPkt", (XDP,), ns)
+        e = cls()
+        e.minimumPacketSize = G
+        return e
     cls = type("VfPkt", (XDP,), ns)
     return cls()
 
